@@ -91,6 +91,24 @@ Proof.
   - rewrite (remove_files_find _ _ _ _ E). destruct (omit_hit nm w k); [now right|now left].
 Qed.
 
+(* a src= line: unless a later line names the path again, its entry at the end of the script is
+   the regular file without an inode group the line made *)
+Lemma run_ops_src t ops m m' : run_ops t ops m = Ok m' ->
+  forall pre li s post, ops = pre ++ OAdd li :: post -> li_src li = Some s ->
+  omits_none post (li_name li) -> ~ ops_name t post (li_name li) ->
+  find (li_name li) m' = Some (EFile None).
+Proof.
+  intros H pre li s post -> Hs Ho Hn. apply run_ops_app in H as (ma & _ & H). cbn [run_ops] in H.
+  destruct (run_op t (OAdd li) ma) as [mb| |] eqn:E; [|discriminate H|discriminate H]. cbn [run_op] in E.
+  unfold add_files in E. rewrite Hs in E. destruct (li_wild li); [discriminate E|].
+  apply add_src_spec in E. subst mb.
+  assert (Hm : mem (li_name li) m' = true).
+  { eapply run_ops_keeps; eauto. rewrite mem_add. now rewrite feq_refl. }
+  destruct (run_ops_frame _ _ _ _ H _ Hn) as [F|F].
+  - rewrite F. apply find_add_eq.
+  - unfold mem in Hm. rewrite F in Hm. discriminate Hm.
+Qed.
+
 (* the type flag of a member comes from its entry *)
 Definition kind_fits (e : entry) (k : mkind) : Prop :=
   match e with
@@ -116,6 +134,19 @@ Lemma finalize_kind m x : In x (finalize m) -> exists e, find (m_name x) m = Som
 Proof.
   intros H. apply fix_hardlinks_kinds in H as (e & H1 & H2). exists e. split; [now apply sorted_entries_find|exact H2].
 Qed.
+(* an entry without an inode group is written as a regular file, and no hard link refers to it *)
+Lemma finalize_nogroup m n : find n m = Some (EFile None) ->
+  forall x, In x (finalize m) ->
+  (m_name x = n -> m_kind x = KReg) /\ (m_kind x = KLink -> m_link x <> n /\ mem (m_link x) m = true).
+Proof.
+  intros Hf x Hx. destruct (in_split _ _ Hx) as (a & b & E). split.
+  - intros Hn. destruct (finalize_kind m x Hx) as (e & Fe & Ke). rewrite Hn, Hf in Fe. injection Fe as <-.
+    destruct Ke as [Ke|Ke]; [exact Ke|].
+    destruct (finalize_hardlinks m a x b E Ke) as (y & g & _ & _ & _ & F1 & _). rewrite Hn, Hf in F1. discriminate F1.
+  - intros Hk. destruct (finalize_hardlinks m a x b E Hk) as (y & g & _ & Hy & _ & _ & F2). rewrite Hy in F2. split.
+    + intros Hl. rewrite Hl, Hf in F2. discriminate F2.
+    + unfold mem. now rewrite F2.
+Qed.
 
 (* lines of the built-in scripts that always yield a member *)
 Definition always_adds (o : op) : bool :=
@@ -125,7 +156,7 @@ Definition always_adds (o : op) : bool :=
   | _ => false
   end.
 Definition stddir_op_ok (o : op) : bool :=
-  match o with OAdd (MkLI TDir _ false _ _ s) => negb s | _ => true end.
+  match o with OAdd (MkLI TDir _ false _ _ s _) => negb s | _ => true end.
 Definition add_names (ops : list op) : list bytes :=
   flat_map (fun o => match o with OAdd li => [li_name li] | _ => [] end) ops.
 
@@ -148,9 +179,9 @@ Hypothesis E3 : (if i_novdb i then Ok m2 else add_vdb t (map p_dir (selected (i_
 Hypothesis E4 : (if i_emptydev i then Ok m3 else bind (run_ops t dops m3) (extend_dev t xl)) = Ok m4.
 Hypothesis E5 : run_ops t mops m4 = Ok m5.
 Hypothesis E7 : run_ops t sops (exclude (unstaged all m1) m5) = Ok m7.
-Hypothesis E9 : run_ops t (script_ops (i_script i)) (add_missing_dirs m7) = Ok m9.
+Hypothesis E9 : run_ops t (user_script i) (add_missing_dirs m7) = Ok m9.
 Let mf := add_missing_dirs m9.
-Let uops := script_ops (i_script i).
+Let uops := user_script i.
 Let u := unstaged all m1.
 
 Lemma static_trans m m' : bind (run_ops t dops m) (extend_dev t xl) = Ok m' ->
@@ -201,7 +232,7 @@ Proof.
   apply (run_ops_add_adds _ _ sops_adds _ _ E7 li (li_name li) Hin).
   - unfold op_targets. rewrite Hw. now left.
   - intros Hs. pose proof sops_noskip as C. rewrite forallb_forall in C. specialize (C _ Hin).
-    destruct li as [ty nm w tg dv sk]. cbn in Ht, Hw, Hs. subst. cbn in C. discriminate C.
+    destruct li as [ty nm w tg dv sk sr]. cbn in Ht, Hw, Hs. subst. cbn in C. discriminate C.
 Qed.
 
 (* the static /dev nodes *)
@@ -239,6 +270,15 @@ Lemma user_member pre li post n : uops = pre ++ OAdd li :: post -> In n (op_targ
 Proof.
   intros Eu Hn Hs Ho. unfold mf. eapply da_ext; [apply add_missing_da|].
   eapply (run_ops_user _ _ _ _ E9); eauto.
+Qed.
+
+(* a src= line the script does not name again ends as a regular-file entry without a group *)
+Lemma src_final pre li s post : uops = pre ++ OAdd li :: post -> li_src li = Some s ->
+  omits_none post (li_name li) -> ~ ops_name t post (li_name li) ->
+  find (li_name li) mf = Some (EFile None).
+Proof.
+  intros Eu Hs Ho Hn. pose proof (run_ops_src _ _ _ _ E9 pre li s post Eu Hs Ho Hn) as H.
+  unfold mf. rewrite (da_old _ _ _ (add_missing_da m9)); [exact H|]. unfold mem. now rewrite H.
 Qed.
 
 (* omit lines remove the matching members: what matches and is still a member was named by a
